@@ -778,6 +778,69 @@ fn serde_bytes_like() -> impl serde::Serialize {
     B
 }
 
+// ---- C06: parsing never panics (bounded: token sequences up to length 3 + targeted out-of-range / escape / unicode cases) ----
+fn family_parse(deep: bool) {
+    let mut rep = Report::new(if deep { "parse-deep" } else { "parse" });
+    let toks: Vec<&str> = vec![
+        "if", "then", "else", "and", "or", "==", "=", "!=", ">", "<", ">=", "<=", "+", "-", "*", "/", "%", "!", "&", "|", "^", "@",
+        "contains", "in", "(", ")", "[", "]", "{", "}", ",", ":", ";", ".", "x", "i1", "f1.5", "d1.5", "\"s\"", "0x1F", "0o7", "0b1",
+        "true", "false", "none", "int", "is_some", "datetime", "5", "// c\n", "name", "é", "\"\\q\"", "i99999999999999999999999999999999999999999",
+    ];
+    let mut try_parse = |rep: &mut Report, text: &str| {
+        rep.cases += 2;
+        let t = text.to_string();
+        if catch_unwind(AssertUnwindSafe(|| { let _ = Expr::parse(&t); })).is_err() {
+            rep.fail(&["C06"], "Expr::parse", text, "PANIC", "Ok(tree) or Err(parse error)");
+        }
+        if catch_unwind(AssertUnwindSafe(|| { let _ = Rule::parse(&t); })).is_err() {
+            rep.fail(&["C06"], "Rule::parse", text, "PANIC", "Ok(rule) or Err(parse error)");
+        }
+    };
+    for a in &toks {
+        try_parse(&mut rep, a);
+        for b in &toks {
+            try_parse(&mut rep, &format!("{a} {b}"));
+            try_parse(&mut rep, &format!("{a}{b}"));
+            if deep {
+                for c in &toks {
+                    try_parse(&mut rep, &format!("{a} {b} {c}"));
+                }
+            }
+        }
+    }
+    // out-of-range numerals in every numeric position
+    let huge = "9".repeat(60);
+    for t in [format!("i{huge}"), format!("i-{huge}"), format!("0x{}", "F".repeat(40)), format!("0o{}", "7".repeat(60)), format!("0b{}", "1".repeat(200)),
+              format!("f{huge}"), format!("f1e{huge}"), format!("f1e-{huge}"), format!("d{huge}"), format!("d0.{huge}"), format!("a.{huge}"),
+              format!("a.{huge}.{huge}"), format!("[i1].{huge}"), format!("a.18446744073709551615"), format!("a.18446744073709551616"),
+              format!("@name: i{huge}; x"), format!("@k: [i{huge}]; x"), format!("// r\n@m: {{a: d{huge}}}; x")] {
+        try_parse(&mut rep, &t);
+    }
+    // escapes: every single-character escape, unicode forms, truncated forms
+    for c in 0u8..128 {
+        try_parse(&mut rep, &format!("\"\\{}\"", c as char));
+        try_parse(&mut rep, &format!("\"a\\{}", c as char));
+    }
+    for u in ["\\u{41}", "\\u{110000}", "\\u{D800}", "\\u{}", "\\u{zz}", "\\u{41", "\\u41}", "\\u", "\\u{FFFFFFFFFF}", "\\", "\\u{0041}\\u{}x"] {
+        try_parse(&mut rep, &format!("\"{u}\""));
+        try_parse(&mut rep, &format!("@name: \"{u}\"; x"));
+    }
+    // non-ASCII and control characters in every position of a small template
+    for ch in ['é', '\u{0}', '\u{7f}', '\u{2028}', '\u{feff}', '𝔘', '\t', '\r'] {
+        for tpl in ["{}", "a{}", "{}a", "\"{}\"", "i1{}", "a.{}", ":{}", "// {}\nx", "@{}: i1; x", "f({})", "[{}]", "{{a: {}}}"] {
+            try_parse(&mut rep, &tpl.replace("{}", &ch.to_string()));
+        }
+    }
+    // moderately deep nesting (stack depth itself is C19, not claimed)
+    for n in [1usize, 10, 50] {
+        try_parse(&mut rep, &format!("{}i1{}", "(".repeat(n), ")".repeat(n)));
+        try_parse(&mut rep, &format!("{}i1{}", "[".repeat(n), "]".repeat(n)));
+        try_parse(&mut rep, &format!("{}i1", "-".repeat(n)));
+        try_parse(&mut rep, &format!("a{}", ".0".repeat(n)));
+    }
+    rep.finish();
+}
+
 fn main() {
     std::panic::set_hook(Box::new(|_| {})); // panics are caught and reported as failing cases
     let args: Vec<String> = std::env::args().skip(1).collect();
@@ -790,6 +853,8 @@ fn main() {
             "builder" => family_builder(),
             "convert" => family_convert(),
             "ser" => family_ser(),
+            "parse" => family_parse(false),
+            "parse-deep" => family_parse(true),
             other => eprintln!("unknown family {other}"),
         }
     }
